@@ -364,7 +364,13 @@ func vpC05Template(t *rapid.T, l *vpLedger) (*common.VersionedTransaction, []str
 		signed = signOwners(tx, []*vpLUTXO{in})
 		if kind == 2 || kind == 3 {
 			sig := signer.PrivateSpendKey.Sign(tx.AsVersioned().PayloadHash())
-			signed.SignaturesMap = []map[uint16]*crypto.Signature{{0: &sig}}
+			// the signer's signature usually sits under key index 0; other
+			// indexes are just as decodable
+			at := rapid.SampledFrom([]uint16{0, 0, 0, 1, 2, 255, 65535}).Draw(t, "tmpl_sig_index")
+			if at != 0 {
+				classes = append(classes, "node-sig-index-nonzero")
+			}
+			signed.SignaturesMap = []map[uint16]*crypto.Signature{{at: &sig}}
 		}
 	case 4: // remove shaped
 		in := byType(common.OutputTypeNodeAccept)
@@ -529,6 +535,42 @@ func vpC05Template(t *rapid.T, l *vpLedger) (*common.VersionedTransaction, []str
 			st.SignaturesMap[i] = m
 		}
 	}
+	// reshape the signature maps of an otherwise complete transaction: entries
+	// moved to other key indexes, an emptied map, a surplus map, a signature
+	// repeated under a second index (all decodable; validators that address a map
+	// by a fixed index or assume its entry count must reject, not crash)
+	if len(st.SignaturesMap) > 0 && rapid.IntRange(0, 3).Draw(t, "sigmap_reshape") == 0 {
+		classes = append(classes, "sigmap-reshaped")
+		at := rapid.IntRange(0, len(st.SignaturesMap)-1).Draw(t, "sigmap_at")
+		m := st.SignaturesMap[at]
+		nm := map[uint16]*crypto.Signature{}
+		switch rapid.IntRange(0, 3).Draw(t, "sigmap_kind") {
+		case 0: // every entry shifted to another index
+			shift := rapid.SampledFrom([]uint16{1, 2, 63, 255, 256, 65534}).Draw(t, "sigmap_shift")
+			for i, sg := range m {
+				nm[i+shift] = sg
+			}
+		case 1: // emptied
+		case 2: // first entry repeated under a second index
+			for i, sg := range m {
+				nm[i] = sg
+				nm[i+1+uint16(rapid.IntRange(0, 3).Draw(t, "sigmap_dup"))] = sg
+				break
+			}
+		default: // surplus map appended
+			for i, sg := range m {
+				nm[i] = sg
+			}
+			extra := map[uint16]*crypto.Signature{}
+			for i, sg := range m {
+				extra[i] = sg
+			}
+			st.SignaturesMap = append(append([]map[uint16]*crypto.Signature{}, st.SignaturesMap...), extra)
+		}
+		maps := append([]map[uint16]*crypto.Signature{}, st.SignaturesMap...)
+		maps[at] = nm
+		st.SignaturesMap = maps
+	}
 	var enc []byte
 	var ver *common.VersionedTransaction
 	if p := vpLCatch(func() { ver = st.AsVersioned(); enc = ver.Marshal() }); p != nil {
@@ -556,7 +598,7 @@ func vpC05Reached(err error) string {
 
 func TestVP_C05_never_panics(t *testing.T) {
 	c := kit.New(t, "C05", "rapid: 30% free-form and 70% template-derived (valid transfer/pledge/accept/cancel/remove/submit/claim/deposit/mint/custodian-update shapes with 0..3 structural mutations, re-signed) version-5 transactions (free-form: 1..4 inputs: live outputs of every stored type incl. pledge/accept/remove/claim/custodian, spent/missing refs, deposit/mint/genesis data also riding on ordinary refs; 1..4 outputs of every type byte incl. unknown ones, amounts 0..2^520000, keys valid/invalid/reused, scripts valid/malformed, withdrawal data, storage-output shape; extras 0..5000 bytes incl. real node extras; references real/unknown; authorization: none, aggregate with arbitrary signers, per-input maps honest or misplaced with missing/surplus maps), round-tripped through Marshal/Unmarshal so only decodable inputs are judged, validated at drawn snapshot times >= genesis custodian time with fork on/off; oracle: Validate returns (no panic); non-trivial = reached validateInputs or later (error class 'deep' or accepted); distinct by full encoding hash")
-	c.Require("deep", "accepted", "early", "in-utxo-0x0", "in-utxo-0xa4", "in-utxo-0xa3", "in-utxo-0xa6", "in-utxo-0xa9", "in-utxo-0xb1", "in-deposit", "in-mint", "auth-none", "auth-aggregate", "auth-maps-short", "storage-output", "type-9", "type-6", "type-7", "type-18", "type-19", "type-5", "type-3", "template-3", "template-9", "mut-1", "mut-2", "mut-8", "mut-12")
+	c.Require("deep", "accepted", "early", "in-utxo-0x0", "in-utxo-0xa4", "in-utxo-0xa3", "in-utxo-0xa6", "in-utxo-0xa9", "in-utxo-0xb1", "in-deposit", "in-mint", "auth-none", "auth-aggregate", "auth-maps-short", "storage-output", "type-9", "type-6", "type-7", "type-18", "type-19", "type-5", "type-3", "template-3", "template-9", "mut-1", "mut-2", "mut-8", "mut-12", "sigmap-reshaped", "node-sig-index-nonzero")
 	kit.SetChecks(kit.N(120, 8000))
 	rapid.Check(t, func(t *rapid.T) {
 		l := vpC05Ledger(t, "c05")
@@ -575,6 +617,11 @@ func TestVP_C05_never_panics(t *testing.T) {
 				continue
 			}
 			ts := l.Epoch + 1 + uint64(rapid.Int64Range(0, int64(l.Clock-l.Epoch)+2000000000).Draw(t, "snap_time"))
+			if rapid.Bool().Draw(t, "snap_late") {
+				// after everything the ledger holds (the state "now"), where the
+				// latest membership records are visible to the validators
+				ts = l.Clock + uint64(rapid.Int64Range(1, 2000000000).Draw(t, "snap_after"))
+			}
 			fork := rapid.Bool().Draw(t, "fork")
 			var err error
 			if p := vpLCatch(func() { err = ver.Validate(l.Store, ts, fork) }); p != nil {
